@@ -1381,7 +1381,7 @@ pub fn run(o: &Opts, rec: &mut Recorder) {
     }
 
     // ---- (3) byte-level mutations of the signed requests -----------------------------------
-    let nbits = o.n(160, 0);
+    let nbits = o.n(400, 0);
     for (i, (buf, signer, _)) in bases.clone().into_iter().enumerate() {
         let all = thorough && i < 3;
         let mut rng = g.rng.fork();
@@ -1466,7 +1466,7 @@ pub fn run(o: &Opts, rec: &mut Recorder) {
             // mutated replies
             let all = thorough && i < 2 && now_off == 0 && au;
             let mut rng = g.rng.fork();
-            for (tag, mb) in mutations(&reply, &mut rng, all, if thorough { 600 } else { o.n(60, 0) }) {
+            for (tag, mb) in mutations(&reply, &mut rng, all, if thorough { 600 } else { o.n(150, 0) }) {
                 g.rec.stat(&format!("gen.rmut.{}", tag.trim_end_matches(|c: char| c.is_ascii_digit())));
                 g.run(vline(&mb, None));
                 if g.rng.chance(1, 3) {
